@@ -529,6 +529,16 @@ func (s *Server) deleteClient(id string) {
 	s.csMu.Lock()
 	defer s.csMu.Unlock()
 	delete(s.cs, id)
+
+	// Per the gRIBI specification, the pending operations of a client are cancelled when
+	// its session goes away. Only the primary can have pending operations, and since they
+	// are keyed solely by operation ID their results would otherwise be sent to whichever
+	// client is the primary when they become resolvable.
+	s.elecMu.RLock()
+	defer s.elecMu.RUnlock()
+	if s.curMaster == id && s.masterRIB != nil {
+		s.masterRIB.CancelPending()
+	}
 }
 
 // updateParams writes the parameters for the client specified by id to the server state
@@ -780,6 +790,11 @@ func (s *Server) runElection(id string, elecID *spb.Uint128) (*spb.ModifyRespons
 	}
 
 	if nm {
+		if s.curMaster != "" && s.curMaster != id && s.masterRIB != nil {
+			// A new primary has been elected - stop processing the pending operations
+			// of the previous primary, their results must not be sent to the new one.
+			s.masterRIB.CancelPending()
+		}
 		s.curElecID = elecID
 		s.curMaster = id
 	}
